@@ -9,6 +9,7 @@ import (
 	"log/slog"
 	"net"
 	"sync"
+	"sync/atomic"
 	"time"
 )
 
@@ -21,8 +22,8 @@ type connection struct {
 	activeMsgChan         chan *ActiveMessage
 	activeMsgCompleteChan chan *Message
 	reissuePackChan       chan *Message
-	// platformSerialNumber 平台流水号 到了math.MaxUint16后+1重新变成0
-	platformSerialNumber uint16
+	// platformSerialNumber 平台流水号 到了math.MaxUint16后+1重新变成0 写协程递增 读协程只用于日志 所以用原子操作
+	platformSerialNumber atomic.Uint32
 	joinFunc             func(message *Message, activeChan chan<- *ActiveMessage) (string, error)
 	leaveFunc            func(key string)
 	key                  string
@@ -41,7 +42,6 @@ func newConnection(conn *net.TCPConn, handles map[consts.JT808CommandType]Handle
 		activeMsgChan:         make(chan *ActiveMessage, 3),
 		activeMsgCompleteChan: make(chan *Message, 3),
 		reissuePackChan:       make(chan *Message, 3),
-		platformSerialNumber:  uint16(0),
 		joinFunc:              join,
 		leaveFunc:             leave,
 		filter:                filter,
@@ -76,13 +76,13 @@ func (c *connection) reader() {
 				if errors.Is(err, net.ErrClosed) || errors.Is(err, io.EOF) {
 					slog.Debug("connection close",
 						slog.Bool("join", join),
-						slog.Any("platform num", c.platformSerialNumber),
+						slog.Any("platform num", uint16(c.platformSerialNumber.Load())),
 						slog.Any("err", err))
 					return
 				}
 				slog.Error("read data",
 					slog.Bool("join", join),
-					slog.Any("platform num", c.platformSerialNumber),
+					slog.Any("platform num", uint16(c.platformSerialNumber.Load())),
 					slog.Any("err", err))
 				return
 			} else if n > 0 {
@@ -91,7 +91,7 @@ func (c *connection) reader() {
 				if err != nil {
 					slog.Error("parse data",
 						slog.Bool("join", join),
-						slog.Any("platform num", c.platformSerialNumber),
+						slog.Any("platform num", uint16(c.platformSerialNumber.Load())),
 						slog.String("effective data", fmt.Sprintf("%x", effectiveData)),
 						slog.Any("err", err))
 					return
@@ -365,8 +365,5 @@ func (c *connection) onWriteExecutionEvent(msg *Message) {
 }
 
 func (c *connection) curSeq() uint16 {
-	defer func() {
-		c.platformSerialNumber++
-	}()
-	return c.platformSerialNumber
+	return uint16(c.platformSerialNumber.Add(1) - 1)
 }
